@@ -182,14 +182,23 @@ pub fn cases(tier: Tier) -> Vec<Case> {
         ("cancel-mid-body", h2::rst_stream(abuse_stream, CANCEL), Expect::Tolerated, false),
         ("cancel-mid-body-then-window-update", [h2::rst_stream(abuse_stream, CANCEL), h2::window_update(abuse_stream, 1000)].concat(), Expect::Tolerated, false),
         // ---- floods (thresholds are configuration: either outcome, but never a wedge)
-        ("ping-flood", rep(h2::ping(false, [9; 8]), flood_n), Expect::GoawayOrTolerated(vec![ENHANCE_YOUR_CALM]), false),
-        ("settings-flood", rep(h2::settings(&[(h2::S_ENABLE_PUSH, 0)]), flood_n), Expect::GoawayOrTolerated(vec![ENHANCE_YOUR_CALM]), false),
-        ("window-update-flood", rep(h2::window_update(0, 1), flood_n), Expect::GoawayOrTolerated(vec![ENHANCE_YOUR_CALM, FLOW_CONTROL_ERROR]), false),
+        // above the documented default thresholds (doc/configure.md, h2_max_*_per_window) the defence must trigger
+        ("ping-flood", rep(h2::ping(false, [9; 8]), flood_n), gw(&[ENHANCE_YOUR_CALM]), false),
+        ("settings-flood", rep(h2::settings(&[(h2::S_ENABLE_PUSH, 0)]), flood_n), gw(&[ENHANCE_YOUR_CALM]), false),
+        ("window-update-flood", rep(h2::window_update(0, 1), flood_n), gw(&[ENHANCE_YOUR_CALM, FLOW_CONTROL_ERROR]), false),
+        ("empty-data-flood", [headers_frame(abuse_stream, &block(&[(":method", "POST"), (":scheme", "https"), (":path", "/abuse"), (":authority", "a.io")]), false), rep(h2::data(abuse_stream, b"", false), flood_n)].concat(), gw(&[ENHANCE_YOUR_CALM, PROTOCOL_ERROR]), false),
+        ("padded-empty-data-flood", [headers_frame(abuse_stream, &block(&[(":method", "POST"), (":scheme", "https"), (":path", "/abuse"), (":authority", "a.io")]), false), rep(h2::frame(h2::DATA, h2::F_PADDED, abuse_stream, &[3, 0, 0, 0]), flood_n)].concat(), gw(&[ENHANCE_YOUR_CALM, PROTOCOL_ERROR]), false),
+        ("continuation-flood", [h2::frame(h2::HEADERS, 0, abuse_stream, &req_block("/abuse", &[])), rep(h2::frame(h2::CONTINUATION, 0, abuse_stream, &lit("x-c", "1")), flood_n)].concat(), gw(&[ENHANCE_YOUR_CALM, PROTOCOL_ERROR, COMPRESSION_ERROR]), true),
+        ("rapid-reset", (0..flood_n as u32).flat_map(|i| [headers_frame(abuse_stream + 2 * i, &req_block("/size/5", &[]), true), h2::rst_stream(abuse_stream + 2 * i, CANCEL)].concat()).collect(), gw(&[ENHANCE_YOUR_CALM, PROTOCOL_ERROR]), false),
+        // no documented threshold: either outcome, never a wedge
         ("priority-flood", rep(h2::frame(h2::PRIORITY, 0, 9, &[0, 0, 0, 0, 16]), flood_n), Expect::GoawayOrTolerated(vec![ENHANCE_YOUR_CALM]), false),
         ("unknown-frame-flood", rep(h2::frame(0x42, 0, 0, b"x"), flood_n), Expect::GoawayOrTolerated(vec![ENHANCE_YOUR_CALM]), false),
-        ("empty-data-flood", [headers_frame(abuse_stream, &block(&[(":method", "POST"), (":scheme", "https"), (":path", "/abuse"), (":authority", "a.io")]), false), rep(h2::data(abuse_stream, b"", false), flood_n)].concat(), Expect::GoawayOrTolerated(vec![ENHANCE_YOUR_CALM, PROTOCOL_ERROR]), false),
-        ("continuation-flood", [h2::frame(h2::HEADERS, 0, abuse_stream, &req_block("/abuse", &[])), rep(h2::frame(h2::CONTINUATION, 0, abuse_stream, &lit("x-c", "1")), flood_n)].concat(), gw(&[ENHANCE_YOUR_CALM, PROTOCOL_ERROR, COMPRESSION_ERROR]), true),
-        ("rapid-reset", (0..flood_n as u32).flat_map(|i| [headers_frame(abuse_stream + 2 * i, &req_block("/size/5", &[]), true), h2::rst_stream(abuse_stream + 2 * i, CANCEL)].concat()).collect(), Expect::GoawayOrTolerated(vec![ENHANCE_YOUR_CALM, PROTOCOL_ERROR]), false),
+        // below the thresholds nothing may happen
+        ("pings-below-threshold", rep(h2::ping(false, [9; 8]), 40), Expect::Tolerated, false),
+        ("settings-below-threshold", rep(h2::settings(&[(h2::S_ENABLE_PUSH, 0)]), 20), Expect::Tolerated, false),
+        ("window-updates-below-threshold", rep(h2::window_update(0, 1), 40), Expect::Tolerated, false),
+        ("continuations-below-threshold", [h2::frame(h2::HEADERS, h2::F_END_STREAM, abuse_stream, &req_block("/abuse-ok", &[])), rep(h2::frame(h2::CONTINUATION, 0, abuse_stream, &lit("x-c", "1")), 8), h2::frame(h2::CONTINUATION, h2::F_END_HEADERS, abuse_stream, &lit("x-d", "1"))].concat(), Expect::StreamError { stream: abuse_stream, codes: vec![], or_status: vec![200] }, false),
+        ("resets-below-threshold", (0..20u32).flat_map(|i| [headers_frame(abuse_stream + 2 * i, &req_block("/size/5", &[]), true), h2::rst_stream(abuse_stream + 2 * i, CANCEL)].concat()).collect(), Expect::Tolerated, false),
         ("streams-beyond-max-concurrent", (0..130u32).flat_map(|i| headers_frame(abuse_stream + 2 * i, &req_block("/size/5", &[]), true)).collect(), Expect::GoawayOrTolerated(vec![ENHANCE_YOUR_CALM, PROTOCOL_ERROR, REFUSED_STREAM]), false),
     ];
     let _ = NO_ERROR;
